@@ -1408,6 +1408,87 @@ theorem C17.maskCells_all_true (mask : List Bool) (cells : List V) (hlen : mask.
       subst hm
       simp [List.filter_cons, ih ms (by simpa using hlen) hms]
 
+/-- a table given by a list of rows and one projection per field (what a loaded
+`DataFieldRecordArray` is: every column is the same rows, seen through one field) -/
+def C17.ofRows {R : Type} (specs : List (N × D × (R → V))) (rows : List R) : Arr N D V :=
+  ⟨specs.map (fun s => ⟨s.1, s.2.1, rows.map s.2.2⟩),
+   arrLen (specs.map (fun s => (⟨s.1, s.2.1, rows.map s.2.2⟩ : Col N D V)))⟩
+
+theorem C17.cellsOf_ofRows {R : Type} (specs : List (N × D × (R → V))) (rows : List R)
+    (hnd : (specs.map (·.1)).Nodup) (s : N × D × (R → V)) (hs : s ∈ specs) :
+    cellsOf (C17.ofRows specs rows) s.1 = some (rows.map s.2.2) := by
+  unfold cellsOf C17.ofRows findCol
+  induction specs with
+  | nil => simp at hs
+  | cons t ts ih =>
+    simp only [List.map_cons, List.nodup_cons] at hnd
+    simp only [List.map_cons, List.find?_cons]
+    by_cases hname : t.1 = s.1
+    · rcases List.mem_cons.mp hs with rfl | hin
+      · simp
+      · exact absurd (List.mem_map.mpr ⟨s, hin, hname.symm⟩) hnd.1
+    · rcases List.mem_cons.mp hs with rfl | hin
+      · exact absurd rfl hname
+      · simp only [hname, decide_false]
+        exact ih hnd.2 hin
+
+theorem C17.applyMask_ofRows {R : Type} (specs : List (N × D × (R → V))) (rows : List R) (p : R → Bool) :
+    applyMask (rows.map p) (C17.ofRows specs rows) = C17.ofRows specs (rows.filter p) := by
+  unfold applyMask
+  split
+  · rename_i hall
+    have : rows.filter p = rows := by
+      rw [List.filter_eq_self]
+      intro r hr
+      have := List.all_eq_true.mp hall (p r) (List.mem_map.mpr ⟨r, hr, rfl⟩)
+      simpa using this
+    rw [this]
+  · have hcols : (C17.ofRows specs rows).cols.map (fun c => ({ c with cells := maskCells (rows.map p) c.cells } : Col N D V)) =
+        (C17.ofRows specs (rows.filter p)).cols := by
+      simp only [C17.ofRows, List.map_map]
+      apply List.map_congr_left
+      intro s _
+      simp [c17_i3_select_is_filter]
+    unfold selectRows
+    rw [hcols]
+    rfl
+
+/-- **Selection by the good-run list, whole table**: for experimental data whose columns are the
+rows `rows` seen through one projection per field (run number `runOf`, time `timeOf` among them) and
+a good-run list with run / start / stop columns, `prepare_data` keeps exactly the rows whose run
+number is in the list *and* whose time lies in one of the closed windows — the same rows in every
+column, each once, in the original (file) order. -/
+theorem c17_i3_select_rows {R : Type} (specs : List (N × D × (R → V))) (rows : List R)
+    (hnd : (specs.map (·.1)).Nodup) (dr dtm : D) (runOf timeOf : R → V)
+    (hrun : (nm.run, dr, runOf) ∈ specs) (htime : (nm.time, dtm, timeOf) ∈ specs)
+    (grl : Arr N D V) (gr gs ge : List V)
+    (h1 : cellsOf grl nm.run = some gr) (h2 : cellsOf grl nm.start = some gs) (h3 : cellsOf grl nm.stop = some ge) :
+    i3Select ops nm (C17.ofRows specs rows) grl =
+      C17.ofRows specs (rows.filter (fun r =>
+        gr.any (fun g => ops.eqv (runOf r) g) &&
+        (gs.zip ge).any (fun w => ops.le w.1 (timeOf r) && ops.le (timeOf r) w.2))) := by
+  have hr := C17.cellsOf_ofRows specs rows hnd _ hrun
+  simp only at hr
+  unfold i3Select
+  simp only [h1, hr, h2, h3]
+  have hmask1 : runMask ops (rows.map runOf) gr = rows.map (fun r => gr.any (fun g => ops.eqv (runOf r) g)) := by
+    simp [runMask]
+  rw [hmask1, C17.applyMask_ofRows]
+  have ht := C17.cellsOf_ofRows specs (rows.filter (fun r => gr.any (fun g => ops.eqv (runOf r) g))) hnd _ htime
+  simp only at ht
+  simp only [ht]
+  rw [c17_i3_time_mask]
+  have hmask2 : (List.map timeOf (rows.filter (fun r => gr.any (fun g => ops.eqv (runOf r) g)))).map
+      (fun t => (gs.zip ge).any (fun p => ops.le p.1 t && ops.le t p.2)) =
+      (rows.filter (fun r => gr.any (fun g => ops.eqv (runOf r) g))).map
+        (fun r => (gs.zip ge).any (fun w => ops.le w.1 (timeOf r) && ops.le (timeOf r) w.2)) := by
+    simp
+  rw [hmask2, C17.applyMask_ofRows, List.filter_filter]
+  congr 1
+  apply List.filter_congr
+  intro r _
+  simp [Bool.and_comm]
+
 /-- **Live time**: a given live time is used as it is; … -/
 theorem c17_i3_livetime_given (v : V) (grl : Option (Arr N D V)) :
     i3Livetime ops nm (some v) grl = .ok (some v) := by
@@ -1526,6 +1607,15 @@ theorem c17_i3_no_livetime_is_error (c : DsCfg N D) (expPaths mcPaths : List P) 
         · simp only [Except.ok.injEq, Prod.mk.injEq] at hres
           rw [← hres.2.2.2, hlt0] at hsome
           simp at hsome
+
+/-- non-vacuity: field 0 = run, field 1 = time, field 9 = a payload; good-run list with run 7 and the
+window [10, 20]: of four events only the second (run 7, time 20 — the closed upper edge) is kept, in
+every column. -/
+example : i3Select (N := Nat) (D := Nat) (V := Nat)
+      ⟨Nat.ble, fun a b => a == b, id, id, List.sum, fun a b => a - b⟩ ⟨0, 1, 2, 3, 4, 5, 6, 7, 8⟩
+      ⟨[⟨0, 0, [7, 7, 3, 7]⟩, ⟨1, 0, [5, 20, 15, 21]⟩, ⟨9, 0, [100, 101, 102, 103]⟩], 4⟩
+      ⟨[⟨0, 0, [7]⟩, ⟨2, 0, [10]⟩, ⟨3, 0, [20]⟩], 1⟩ =
+    ⟨[⟨0, 0, [7]⟩, ⟨1, 0, [20]⟩, ⟨9, 0, [101]⟩], 1⟩ := by decide
 
 end i3
 
